@@ -441,6 +441,10 @@ impl Allocator for Arena {
 
   #[inline]
   fn increase_discarded(&self, size: u32) {
+    if self.ro {
+      return;
+    }
+
     #[cfg(feature = "tracing")]
     tracing::debug!("discard {size} bytes");
 
@@ -460,6 +464,10 @@ impl Allocator for Arena {
 
   #[inline]
   fn set_minimum_segment_size(&self, size: u32) {
+    if self.ro {
+      return;
+    }
+
     self.header_mut().min_segment_size = size;
   }
 
